@@ -179,16 +179,21 @@ def spec_c04(tier, seed):
     lim = 9 if q else 12
     pairs = [{'lb': a, 'lc': b} for a in range(0, lim + 1) for b in range(0, lim + 1 - a)]
     lens = _harness_eval('[len(s) for s in h.STREAMS]', 'harness.c04_chunking')
+    ns = len(lens)
+    lim3 = 8 if q else 10
+    triples = [{'la': a, 'lb': b, 'lc': c} for a in range(1, lim3) for b in range(1, lim3) for c in range(1, lim3) if a + b + c <= lim3 and a + b >= 4]
     conds = [
         Cond('c04_chunking', 'c_delimit_step', parts=pairs, timeout=300 if q else 600),
-        Cond('c04_chunking', 'c_cut_once', parts=[{'stream': i} for i in range(4)], timeout=300),
-        Cond('c04_chunking', 'c_read_sizes', parts=[{'stream': i} for i in range(4)], timeout=200),
+        Cond('c04_chunking', 'c_delimit_three', parts=triples, timeout=300 if q else 600),
+        Cond('c04_chunking', 'c_parser_state_is_its_buffer', timeout=120),
+        Cond('c04_chunking', 'c_cut_once', parts=[{'stream': i} for i in range(ns)], timeout=300),
+        Cond('c04_chunking', 'c_read_sizes', parts=[{'stream': i} for i in range(ns)], timeout=200),
         Cond('c04_chunking', 'c_message', parts=[{'lm': n} for n in range(0, 13 if q else 17)], timeout=120),
         Cond('c04_chunking', 'c_message_real', timeout=120),
         Cond('c04_chunking', 'w_streams_interesting', timeout=60),
     ]
     if not q:
-        twice = [{'stream': i, 'c1': c} for i in range(4) for c in range(0, lens[i] + 1, 3)]
+        twice = [{'stream': i, 'c1': c} for i in range(ns) for c in range(0, lens[i] + 1, 3)]
         conds.append(Cond('c04_chunking', 'c_cut_twice', parts=twice, timeout=300))
     return dict(
         conds=conds,
@@ -199,8 +204,8 @@ def spec_c04(tier, seed):
                     'at symbolic offsets (one, or two with the first fixed per process) and at read sizes 1..7 through the '
                     'real TransportTCP + StreamReader + parse_or_ignore equal the one-shot decode. Message mode: one '
                     'message in, exactly that frame (or one invalid marker) out, terminates, buffer empty.',
-        bounds=['L1: len(buffer)+len(chunk) <= %d, all length pairs, contents symbolic' % lim,
-                'L2: 4 concrete streams (%s bytes), every single cut%s, read sizes 1..7' % (lens, '' if q else ', second cut symbolic for every third first cut'),
+        bounds=['L1: len(buffer)+len(chunk) <= %d, all length pairs, contents symbolic; three reads with total <= %d (first two together >= 4 bytes); parser state = buffer only (representation invariant)' % (lim, lim3),
+                'L2: 5 concrete streams (%s bytes), every single cut%s, read sizes 1..7' % (lens, '' if q else ', second cut symbolic for every third first cut'),
                 'messages of 0..%d bytes with symbolic content' % (12 if q else 16)],
         outside=['L1 uses a recording stand-in for parse_or_ignore (delimiting never looks inside a frame); frames longer than the bound',
                  'three or more simultaneous symbolic cuts (follow from L1 by induction)'],
